@@ -167,6 +167,39 @@ def enc_record(rid, d, legacy):
     return rec, bytes(raw)
 
 
+def acc_record(rid, d, legacy):
+    """A candidate outside the documented ranges: a record only if the toolkit's own validate()
+    accepts it (then it must survive encode/decode like every message the toolkit calls valid)."""
+    m = mk_tx(d) if d["cls"] == "tx" else mk_rx(d)
+    try:
+        m.validate()
+    except Exception:
+        return None
+    rec = dict(id=rid, e="acc", cls=d["cls"], m=d, legacy=bool(legacy))
+    try:
+        raw = m.gen_msg(legacy)
+    except Exception as e:
+        rec.update(raw=[], err=type(e).__name__, dec=dict(ok=False))
+        return rec
+    rec.update(raw=list(raw), err="", dec=parse_any(d["cls"], bytes(raw)))
+    return rec
+
+
+def poison(m, rng):
+    """Make the next gen_msg() of this object fail after validation (a burst the encoder cannot
+    convert); returns a function that undoes it."""
+    old = m.burst
+    n = len(old) if old is not None else GB
+    if isinstance(m, data_msg.TxMsg):
+        m.burst = [0] * (n - 1) + [rng.choice([256, 999, -1])]
+    else:
+        m.burst = rng.choice([[0] * (n - 1) + ["x"], [0] * (n - 1) + [None], [0] * (n - 1) + [10 ** 6]])
+
+    def undo():
+        m.burst = None
+    return undo
+
+
 def assign(m, d):
     """Bring an existing message object to the field values of d by plain assignment;
     a burst of the same length is changed in place."""
